@@ -155,6 +155,16 @@ class Findings:
     def for_prop(self, pid): return [f for f in self.data['findings'] if pid in f['properties']]
     def fixed_for(self, pid): return [f for f in self.data.get('fixed', []) if pid in f['properties']]
 
+def finding_cases(pid):
+    """replay inputs of the known findings (and of the fixed defects) recorded for this property"""
+    out = []
+    fs = Findings()
+    for f in fs.for_prop(pid) + fs.fixed_for(pid):
+        p = os.path.join(VERIF, f.get('replay', ''))
+        if f.get('replay') and os.path.exists(p):
+            out.append((f.get('id') or f.get('commit'), json.load(open(p)).get('case')))
+    return out
+
 class Check:
     """One run of one property's check."""
     def __init__(self, pid, tier, seed):
@@ -196,8 +206,10 @@ class Check:
     # ---- reporting
     def violation(self, kind, case, what, no_input=False):
         self.violations.append({'kind': kind, 'what': what, 'case': case, 'no_failing_input_found': no_input})
-    def known(self, fid, what):
-        self.known_seen.setdefault(fid, what)
+    def known(self, fid, what, case=None):
+        """a failure inside the region of a finding listed in known_findings.json; an unlisted id is a violation"""
+        if any(f['id'] == fid for f in self.findings.for_prop(self.pid)): self.known_seen.setdefault(fid, what)
+        else: self.violation('oracle', case or {'finding': fid}, 'failure attributed to %s, which known_findings.json does not list for %s: %s' % (fid, self.pid, what))
     def finish(self, rule, distinct=None, extra=None, assumptions=()):
         self.cov['rule'] = rule
         if distinct is not None: self.cov['distinct_nontrivial'] = distinct
